@@ -208,6 +208,8 @@ def check_provenance(ctx):
                     tgt = lp.target
                     if isinstance(it, ast.Call) and call_name(it) == 'enumerate' and it.args and isinstance(tgt, ast.Tuple) and len(tgt.elts) == 2:
                         it, tgt = it.args[0], tgt.elts[1]
+                    if isinstance(it, ast.Name) and it.id != probe_param:
+                        it = view.expand(it, lp)        # `prefix = probe_tokens[0:k]` bound first, then iterated
                     base = it.value if isinstance(it, ast.Subscript) else it
                     if isinstance(base, ast.Name) and base.id == probe_param and isinstance(tgt, ast.Name):
                         tok_loop = lp
